@@ -77,7 +77,15 @@ def check(case, rec):
     ex = expected_content(fs)
     data, index, lay = encode_file(phys, with_index=True)
     truncated = False
-    if case.get('cut') is not None and lay and lay[-1]['end'] - lay[-1]['data_pos'] > 1:
+    if case.get('torn') is not None and phys['segments']:
+        # a further segment was being written when the writer died: only some bytes of its lead-in / metadata made it to
+        # the data file; the index lists the complete segments only. Content = the complete segments.
+        from vf.encode import encode_segment
+        extra, info = encode_segment(phys['segments'][-1])
+        k = 1 + case['torn'] % max(1, info['data_pos'] - 1)
+        data = data + extra[:k]
+        rec.label('torn_next_segment')
+    elif case.get('cut') is not None and lay and lay[-1]['end'] - lay[-1]['data_pos'] > 1:
         data = data[:lay[-1]['data_pos'] + 1 + case['cut'] % (lay[-1]['end'] - lay[-1]['data_pos'] - 1)]
         truncated = True
     classes = S.spec_classes(phys)
@@ -162,7 +170,8 @@ def check(case, rec):
 @st.composite
 def cases_c01(draw, **kw):
     fs = draw(S.file_spec(**kw))
-    return {'fs': fs, 'picks': None, 'cut': draw(st.one_of(st.none(), st.none(), st.integers(0, 10 ** 6)))}
+    return {'fs': fs, 'picks': None, 'cut': draw(st.one_of(st.none(), st.none(), st.integers(0, 10 ** 6))),
+            'torn': draw(st.one_of(st.none(), st.none(), st.none(), st.integers(0, 10 ** 6)))}
 
 
 @st.composite
